@@ -11,7 +11,7 @@ Implementation side
     and then the real `find_missing_edges(meta, meta.molecule)` called directly; (b) the real
     `gen_params` on the same files (sequence as .json graph) with the log records captured.
   * stream `gate`: random .top files (1-3 molecule types, 1-5 residues, bonds/constraints forming trees,
-    cycles, several components, isolated atoms) read by `Topology.from_gmx_topfile`, then the real
+    cycles, several components, isolated atoms; angle and dihedral lines over bonded atoms and across missing bonds) read by `Topology.from_gmx_topfile`, then the real
     `_check_molecules(topology.molecules)`; a few of them through the complete `gen_coords`.
 Model side (`Model/C10Missing.lean`): `findMissingEdges` (correspondence with (a)), `specMissing` — the
 property's own statement, evaluated on the REQUESTED residue-graph edges, the generator's residue
@@ -314,8 +314,23 @@ def gen_top(rng):
             if i != j:
                 edges.add(tuple(sorted((rng.choice(per_res[i]), rng.choice(per_res[j])))))
         kinds = {e: ("constraints" if rng.random() < 0.2 else "bonds") for e in edges}
+        # angle / dihedral terms: over bonded atoms, and also across a place where the bond is missing (what gen_params
+        # writes when only the angle link applied, or what is left when a bond line is deleted).  They are NOT bonds:
+        # the oracle's connectivity is computed from bonds and constraints only.
+        natoms = len(atoms)
+        angles, dihedrals = [], []
+        for _ in range(rng.choice([0, 1, 2, 3])):
+            if natoms >= 3 and rng.random() < 0.6:
+                start = rng.randrange(natoms - 2)
+                angles.append([start, start + 1, start + 2])
+            elif natoms >= 3:
+                angles.append(rng.sample(range(natoms), 3))
+        for _ in range(rng.choice([0, 0, 1])):
+            if natoms >= 4:
+                start = rng.randrange(natoms - 3)
+                dihedrals.append([start, start + 1, start + 2, start + 3] if rng.random() < 0.6 else rng.sample(range(natoms), 4))
         mols.append(dict(name="M%d" % midx, atoms=atoms, edges=sorted(edges), kinds=[kinds[e] for e in sorted(edges)],
-                         count=rng.choice([1, 1, 2])))
+                         angles=angles, dihedrals=dihedrals, count=rng.choice([1, 1, 2])))
     return dict(mols=mols)
 
 
@@ -331,6 +346,14 @@ def render_top(top):
                 lines.append("[ %s ]" % section)
                 for u, v in rows:
                     lines.append("%d %d 1 0.35%s" % (u + 1, v + 1, " 1000" if section == "bonds" else ""))
+        if mol.get("angles"):
+            lines.append("[ angles ]")
+            for a, b, c in mol["angles"]:
+                lines.append("%d %d %d 1 120 50" % (a + 1, b + 1, c + 1))
+        if mol.get("dihedrals"):
+            lines.append("[ dihedrals ]")
+            for a, b, c, d in mol["dihedrals"]:
+                lines.append("%d %d %d %d 1 0 2 1" % (a + 1, b + 1, c + 1, d + 1))
     lines += ["[ system ]", "verif", "[ molecules ]"]
     for mol in top["mols"]:
         lines.append("%s %d" % (mol["name"], mol["count"]))
